@@ -26,7 +26,7 @@ def presetRegistry (tag : Bytes) : Option Handler :=
   if t == "id" || t == "my/id" then some ⟨"id", fun v => some v⟩
   else if t == "fail" then some ⟨"fail", fun _ => none⟩
   else if t == "failq" then some ⟨"failq", fun _ => none⟩
-  else if t == "ext" then some ⟨"ext", fun v => some (.ext ⟨0, 0, 0⟩ 7 (v.hdr.e - v.hdr.s))⟩
+  else if t == "ext" then some ⟨"ext", fun v => some (.ext ⟨0, 0, 0, false⟩ 7 (v.hdr.s - v.hdr.e))⟩
   else if t == "inst" then some ⟨"alt", fun v => some v⟩
   else none
 
@@ -81,7 +81,8 @@ def step (cfg : Cfg) (line : String) : Cfg × String :=
   | ["C", n] => (cfgOfBits n.toNat!, s!"cfg {n}")
   | ["R", opt, hex] =>
     let o := opt.toNat!
-    (cfg, dumpResult cfg ((o / 8) % 2 == 1) (read cfg (optsOf o) (unhex hex)))
+    let inp := unhex hex
+    (cfg, dumpResult cfg ((o / 8) % 2 == 1) inp.length (read cfg (optsOf o) inp))
   | ["S", name, start, hex] => (cfg, runScan name start.toNat! (unhex hex))
   | ["L", hex] => (cfg, runLines (unhex hex))
   | "N" :: rest => (cfg, runNum cfg rest)
